@@ -56,14 +56,14 @@ def history_plan(workload, tier, seed, features=(), native_ops=6000, miri_ops=60
             n = 16 if world == "main" else 8
             jobs += shards(dbg, workload, world, n, native_ops * 8, seed, extra, timeout=3000)
             jobs += shards(rel, workload, world, n, native_ops * 16, seed + 1000, extra, timeout=3000)
-        jobs += shards(mdbg, workload, "main", 24, miri_ops * 3, seed + 2000, extra, timeout=3000, env_extra=menv)
-        jobs += shards(mrel, workload, "main", 24, miri_ops * 3, seed + 3000, extra, timeout=3000, env_extra=menv)
+        jobs += shards(mdbg, workload, "main", 16, miri_ops * 3, seed + 2000, extra, timeout=3000, env_extra=menv)
+        jobs += shards(mrel, workload, "main", 16, miri_ops * 3, seed + 3000, extra, timeout=3000, env_extra=menv)
         if "small" in worlds:
-            jobs += shards(mdbg, workload, "small", 8, miri_ops * 6, seed + 2500, extra, timeout=3000, env_extra=menv)
-            jobs += shards(mrel, workload, "small", 8, miri_ops * 6, seed + 3500, extra, timeout=3000, env_extra=menv)
-        jobs += shards(asan, workload, "main", 16, asan_ops * 8, seed + 4000, extra, timeout=3000, env_extra=aenv)
+            jobs += shards(mdbg, workload, "small", 6, miri_ops * 6, seed + 2500, extra, timeout=3000, env_extra=menv)
+            jobs += shards(mrel, workload, "small", 6, miri_ops * 6, seed + 3500, extra, timeout=3000, env_extra=menv)
+        jobs += shards(asan, workload, "main", 12, asan_ops * 6, seed + 4000, extra, timeout=3000, env_extra=aenv)
         if "small" in worlds:
-            jobs += shards(asan, workload, "small", 8, asan_ops * 8, seed + 4500, extra, timeout=3000, env_extra=aenv)
+            jobs += shards(asan, workload, "small", 6, asan_ops * 6, seed + 4500, extra, timeout=3000, env_extra=aenv)
         jobs += shards(vg, workload, "main", 8, native_ops // 2, seed + 5000, extra, timeout=3000, env_extra=None if leaks else {"VERIF_NOLEAK": "1"})
     if tools:
         jobs = [j for j in jobs if j.cfg.tool in tools]
@@ -307,9 +307,17 @@ reg(Prop(
     rule="pure-function assertions over raw (key, generation) pairs: the cross product of boundary positions {0,1,2,255,256,2^24-2,2^24-1} x all 256 id bytes x generations {0,1,2,2^31,u32::MAX-1,u32::MAX} (exhaustive over ids), plus seeded random pairs: from_raw is Err iff generation 0; raw round trip; archetype_id == low byte; for every declared archetype try_from is Ok iff the id matches and round-trips, from_any panics iff mismatch, reference conversions preserve the value; SelectArchetype::try_from over all 256 ids, SelectEntity/SelectEntityDirect map each declared id to its own variant; == iff raw bits equal, equal => equal hashes, HashSet sizes; direct handles minted by real worlds; every handle created in churn histories carries its creator's ARCHETYPE_ID. Miri runs a reduced set (reference transmutes). distinct_nontrivial = boundary values enumerated per process (identical in every process)",
     nontrivial_key="boundary_values", assumptions=COMMON_ASSUME, design_ref="DESIGN.md section 4, C14"))
 
+def plan_c17(tier, seed):
+    jobs = history_plan("events", tier, seed, features=("events",))
+    # a destroy that panics on version overflow must not have logged the entity
+    k = 1 if tier == "quick" else 5
+    jobs += shards(Config("dbg", ("events",)), "overflow", "main", 3, 2500 * k, seed + 40, timeout=3000)
+    jobs += shards(Config("rel", ("events",)), "overflow", "small", 3, 5000 * k, seed + 41, timeout=3000)
+    return jobs
+
+
 reg(Prop(
-    "C17", "exploration",
-    lambda tier, seed: history_plan("events", tier, seed, features=("events",)),
+    "C17", "exploration", plan_c17,
     accept=["C17"],
     floors={"events.checks": 5000, "events.size_hints_checked": 50000, "op.clear_events.world": 20, "op.clear_events.archetype": 50, "iter_destroy.destroyed": 100, "clones_made": 20},
     rule=HIST + "built with the events feature: after every step each archetype's iter_created / iter_destroyed is compared (as multisets) with the handles the model saw created / destroyed since the last clear, through both create paths, all four destroy key kinds at both levels and ecs_iter_destroy!; the world-level iterators are stepped one next() at a time with size_hint checked at every position (and after exhaustion) and must yield exactly the union; clears at archetype and world level at random points; clones must carry pending events. distinct_nontrivial = distinct per-archetype (created-log empty?, destroyed-log empty?) patterns seen by the world iterator check in the largest single process",
